@@ -60,7 +60,9 @@ IsException(x) == x \in {"E", "WTE", "UNREB"}       \* subclasses of Exception; 
 OwnExc == CASE Ending = "exc" -> "E" [] Ending = "bexc" -> "BE" [] Ending = "unreb" -> "UNREB" [] OTHER -> "none"
 
 HasF == Kind = "remote" /\ Persistent          \* the parent-side forwarding thread F is modelled step by step
-First == CASE Kind = "thread" -> "t_try" [] Kind = "process" -> "c_init" [] Kind = "remote" -> "b_init"
+\* thread: the start-up synchronisation (after which the parent can call terminate()) is the first statement INSIDE the try
+\* statement in the current code; before the fix it preceded it, so a request could land on the `try:` line (t_try), outside
+First == CASE Kind = "thread" -> (IF Fixed THEN "t_init" ELSE "t_try") [] Kind = "process" -> "c_init" [] Kind = "remote" -> "b_init"
 Work  == IF Persistent THEN "l_recv" ELSE "work"
 InWorkLabels == {"work", "l_recv", "l_run", "l_inc", "l_send"}
 TargetLabels == {"work", "l_run"}
@@ -305,6 +307,7 @@ Inv_C03_Reported    == Terminal => C03_Reported(Rec)
 Inv_C03_NothingElse == Terminal => C03_NothingElse(Rec)
 Inv_C03_NothingElse_KF == (Terminal /\ ~LateLanding) => C03_NothingElse(Rec)
 Inv_C03_OwnOutcome  == Terminal => C03_OwnOutcome(Rec)
+Inv_C03_BeforeStart == Terminal => C03_BeforeStart(Rec)
 Inv_C06_Prefix      == C06_Prefix(Rec)
 Inv_C06_Ends        == Terminal => C06_Ends(Rec)
 Inv_C06_All         == Terminal => C06_All(Rec)
